@@ -2,7 +2,8 @@
 """install_seed.py <prop> <A|B>: copy a confirmed seeded change from its scratch worktree into /verif/seeded/<prop>-<X>/."""
 import json, os, shutil, sys, glob
 prop, x = sys.argv[1], sys.argv[2]
-src = f"/tmp/wt/{prop}/seedout/{x}"
+base = sys.argv[3] if len(sys.argv) > 3 else "/tmp/wt"
+src = f"{base}/{prop}/seedout/{x}"
 dst = f"/verif/seeded/{prop}-{x}"
 log = open(os.path.join(src, "confirm.log")).read()
 res = [l for l in log.splitlines() if l.startswith("RESULT")]
